@@ -18,9 +18,13 @@ transitive closure as well.  A target outside the closure that runs is counted
 (observed.extra_target_ran) but is not a refuting event of the statement.
 
 The hash seed is this property's schedule (the runner iterates sets of names):
-every case runs in workers with PYTHONHASHSEED 0,1,2,3 (`__hashseed__` in the
-shard spec), and three naming schemes / two request orders vary the set
-iteration order further.
+cases run in workers with PYTHONHASHSEED 0,1,2,3 (`__hashseed__` in the shard
+spec), and three naming schemes / two request orders vary the set iteration
+order further.  The thorough tier runs every enumerated case under all four
+seeds; the quick tier does so for n <= 3 and for the self-dependency-free
+4-target graphs, runs the 4-target graphs that contain a self-dependency (always
+cyclic when requested) under seed 0 only, and each 4-target XML recipe under
+one seed (see RULE).
 
 Open findings hollow this sweep out on the unchanged tree (DESIGN 3.2): with
 `dfs-state-never-popped-reconvergence-is-loop` open, acyclic cases in which some
@@ -35,16 +39,20 @@ from vlib.core import rng, h
 
 PROPERTY = "C34"
 RULE = ("dependency graphs on n targets as an n*n bit mask (bit i*n+j: target i depends on target j, diagonal = "
-        "self-dependency) x every non-empty request subset, each executed under PYTHONHASHSEED 0,1,2,3; ALL graphs "
-        "for n = 1..4 (2^16 masks x 15 subsets for n = 4) through Project/Target/TaskRunner, all self-dependency-free "
-        "graphs for n <= 4 also through an XML recipe and api.construct; 5 targets: sampled (graph, subset) pairs, "
-        "half of them DAG-biased (quick 16k, thorough 200k); 1-2 recording tasks per target, 3 naming schemes, 2 "
-        "request orders; non-trivial = the closure of the request has >= 3 targets or contains a cycle; distinct = "
-        "distinct (n, mask, request), counted once although each runs under 4 hash seeds")
+        "self-dependency) x every non-empty request subset; exhaustive space: ALL graphs for n = 1..4 (2^16 masks x "
+        "15 subsets for n = 4) through Project/Target/TaskRunner and all self-dependency-free graphs for n <= 4 "
+        "(4096 x 15 for n = 4) also through an XML recipe and api.construct. Hash seeds (PYTHONHASHSEED of the "
+        "worker): thorough runs every case of both spaces under 0,1,2,3; quick runs n <= 3 and the self-dependency-"
+        "free 4-target graphs under all four seeds, the 4-target graphs with self-dependencies under seed 0 only, "
+        "and each 4-target XML recipe under one seed (index mod 4). 5 targets: sampled (graph, subset) pairs, half "
+        "of them DAG-biased (quick 16k, thorough 200k), each under all four seeds; 1-2 recording tasks per target, "
+        "3 naming schemes, 2 request orders; non-trivial = the closure of the request has >= 3 targets or contains "
+        "a cycle; distinct = distinct (n, mask, request), counted once although each runs under several hash seeds")
 ASSUMPTIONS = ["the history list appended to by the registered recording task is the execution order",
                "TaskError whose message mentions 'loop' or 'cycl' is the runner's loop report"]
 MANIFEST_ENTRY = {
-    "text": "for every dependency graph on <= 4 targets and every non-empty request (exhaustive, under 4 hash seeds) the "
+    "text": "for every dependency graph on <= 4 targets and every non-empty request (exhaustive; thorough tier under 4 "
+            "hash seeds each, quick tier under 4 seeds for the self-dependency-free graphs and seed 0 for the rest) the "
             "build runner runs exactly the closure of the request, each target once and after its dependencies, and "
             "reports a loop iff the requested part is cyclic; 5 targets sampled",
     "note": "5 targets are sampled, not enumerated; while the two open findings stand (reconverging dependencies "
@@ -66,18 +74,33 @@ def EXHAUSTIVE(tier):
 
 
 def plan(tier, seed, avoid):
+    """quick: all 2^16 4-target graphs under hash seed 0, the 4096 self-dependency-free ones under all four
+    seeds (direct path) and under seed (index mod 4) through the XML path; thorough: everything under all seeds."""
     specs = []
     for hs in HASHSEEDS:
-        specs.append({"part": "exh", "path": "direct", "n": [1, 2, 3], "lo": 0, "hi": 0, "__hashseed__": hs})
-        step = 1 << 12
-        for lo in range(0, 1 << 16, step):
-            specs.append({"part": "exh", "path": "direct", "n": [4], "lo": lo, "hi": lo + step, "__hashseed__": hs})
-        specs.append({"part": "exh", "path": "xml", "n": [1, 2, 3, 4], "lo": 0, "hi": 0, "__hashseed__": hs})
-        if tier == "quick":
-            specs.append({"part": "sample5", "count": 16000, "idx": 0, "__hashseed__": hs})
+        specs.append({"part": "exh", "path": "direct", "space": "all", "n": [1, 2, 3], "lo": 0, "hi": 0,
+                      "__hashseed__": hs})
+        if tier == "thorough" or hs == HASHSEEDS[0]:
+            step = 1 << 13
+            for lo in range(0, 1 << 16, step):
+                specs.append({"part": "exh", "path": "direct", "space": "all", "n": [4], "lo": lo, "hi": lo + step,
+                              "__hashseed__": hs})
         else:
+            for lo in range(0, 1 << 12, 1 << 11):
+                specs.append({"part": "exh", "path": "direct", "space": "nodiag", "n": [4], "lo": lo,
+                              "hi": lo + (1 << 11), "__hashseed__": hs})
+        specs.append({"part": "exh", "path": "xml", "space": "nodiag", "n": [1, 2, 3], "lo": 0, "hi": 0,
+                      "__hashseed__": hs})
+        if tier == "thorough":
+            for lo in range(0, 1 << 12, 1 << 11):
+                specs.append({"part": "exh", "path": "xml", "space": "nodiag", "n": [4], "lo": lo,
+                              "hi": lo + (1 << 11), "__hashseed__": hs})
             for i in range(4):
                 specs.append({"part": "sample5", "count": 50000, "idx": i, "__hashseed__": hs})
+        else:
+            specs.append({"part": "exh", "path": "xml", "space": "nodiag", "n": [4], "lo": 0, "hi": 1 << 12,
+                          "residue": int(hs), "__hashseed__": hs})
+            specs.append({"part": "sample5", "count": 16000, "idx": 0, "__hashseed__": hs})
     return specs
 
 
@@ -93,6 +116,19 @@ def floors(tier):
 
 def deps_of(n, mask):
     return [[j for j in range(n) if mask >> (i * n + j) & 1] for i in range(n)]
+
+
+def spread(n, index):
+    """The index-th self-dependency-free graph: bits of index go to the off-diagonal positions."""
+    mask = 0
+    k = 0
+    for i in range(n):
+        for j in range(n):
+            if i != j:
+                if index >> k & 1:
+                    mask |= 1 << (i * n + j)
+                k += 1
+    return mask
 
 
 def closure_of(deps, roots):
@@ -466,15 +502,17 @@ def run_shard(spec):
     part = spec["part"]
     if part == "exh":
         path = spec["path"]
+        nodiag = spec.get("space") == "nodiag"
         for n in spec["n"]:
-            lo, hi = (spec["lo"], spec["hi"]) if spec["hi"] else (0, 1 << (n * n))
-            diag = sum(1 << (i * n + i) for i in range(n))
-            for mask in range(lo, hi):
-                if path == "xml" and mask & diag:
-                    continue  # the xml path enumerates the self-dependency-free graphs
+            bits = n * (n - 1) if nodiag else n * n
+            lo, hi = (spec["lo"], spec["hi"]) if spec["hi"] else (0, 1 << bits)
+            for index in range(lo, hi):
+                if "residue" in spec and index % 4 != spec["residue"]:
+                    continue
                 if mon.refuting >= STOP_AFTER:
                     mon.discarded["shard_stopped_after_%d_refuting_events" % STOP_AFTER] = 1
                     break
+                mask = spread(n, index) if nodiag else index
                 deps = deps_of(n, mask)
                 for reqbits in range(1, 1 << n):
                     one_case(mon, n, mask, reqbits, path, avoid,
